@@ -10,3 +10,7 @@ import MqttVerif.Model.Subs
 import MqttVerif.Spec.Mqtt311
 import MqttVerif.Spec.TopicMatch
 import MqttVerif.Spec.SubsSpec
+import MqttVerif.Model.Heap
+import MqttVerif.Model.Errors
+import MqttVerif.Model.Inbound
+import MqttVerif.Spec.InboundSpec
